@@ -95,6 +95,7 @@ pub fn run_c13(tier: &str) -> i32 {
                 return;
             }
             let lines: Vec<&str> = seq.iter().map(|&i| alpha[i]).collect();
+            rep.st(1);
             for crlf in [false, true] {
                 for final_nl in [true, false] {
                     if lines.is_empty() && (!final_nl || crlf) {
@@ -103,6 +104,7 @@ pub fn run_c13(tier: &str) -> i32 {
                     let src = build_source(&lines, crlf, final_nl);
                     c13_pair(rep, &b, &src);
                     rep.add("pairs", 1);
+                    rep.tr(1);
                 }
             }
             // abstract shape of the ending: last symbol class x final newline
@@ -187,7 +189,7 @@ pub fn run_c12(tier: &str) -> i32 {
     rep.set("bounds", json!(format!("sources of <= {l_all} lines (<= {l_run} when a command is run) over 9 line shapes; every source line with its own terminator LF/CRLF (last line also none); included file in 4 line-ending variants; command output in 2")));
     rep.assume("domain: CR occurs only immediately before LF");
     let inc_variants: [(&str, &str); 4] = [("lf", "p\nq\n"), ("crlf", "p\r\nq\r\n"), ("mixed", "p\r\nq\nr\r\n"), ("nofinal", "p\r\nq")];
-    let cmd_variants: [(&str, &str); 2] = [("lf", "c\nd\n"), ("crlf", "c\r\nd\r\n")];
+    let cmd_variants: [(&str, &str); 3] = [("lf", "c\nd\n"), ("crlf", "c\r\nd\r\n"), ("mixed", "c\nd\r\ne\n")];
     sharded_dyn(&rep, par_threads(), |_k, _n, next, rep| {
         let b = Bench::new(&Tree::new());
         let stop = || rep.over_cap();
@@ -202,6 +204,7 @@ pub fn run_c12(tier: &str) -> i32 {
                 return;
             }
             let n = seq.len();
+            rep.st(1);
             // terminators: bit i = CRLF for line i; last line additionally "none"
             for mask in 0..(1u32 << n) {
                 for last_none in [false, true] {
@@ -220,11 +223,12 @@ pub fn run_c12(tier: &str) -> i32 {
                     }
                     let crlf = first_le(&src) == "\r\n";
                     for (iname, inc) in inc_variants.iter().take(if has_inc { 4 } else { 1 }) {
-                        for (cname, cmd) in cmd_variants.iter().take(if has_run { 2 } else { 1 }) {
+                        for (cname, cmd) in cmd_variants.iter().take(if has_run { 3 } else { 1 }) {
                             std::fs::write(b.base.join("inc.txt"), inc).unwrap();
                             std::fs::write(b.base.join("cmd.txt"), cmd).unwrap();
                             let r = b.run(&src, Mode::Build, true, true);
                             rep.tv(1);
+                            rep.tr(1);
                             rep.add("cases", 1);
                             match &r.v {
                                 V::Ok => {
@@ -327,6 +331,7 @@ pub fn run_c16(tier: &str) -> i32 {
             for_each_seq(lines.len(), *max_lines, next, &stop, &mut |seq| {
                 let text: Vec<&str> = seq.iter().map(|&i| lines[i].as_str()).collect();
                 let any_dir = seq.iter().any(|&i| is_dir[i]);
+                rep.st(1);
                 // (a) directive-free text is reproduced
                 if !any_dir {
                     for crlf in [false, true] {
@@ -343,6 +348,7 @@ pub fn run_c16(tier: &str) -> i32 {
                             for tn in [true, false] {
                                 let r = b.run(&src, Mode::Build, true, tn);
                                 rep.tv(1);
+                                rep.tr(1);
                                 rep.add("a_texts_verbatim", 1);
                                 // source "" has no line at all; a source of one empty line without newline is the same file
                                 let eff: Vec<&str> = if src.is_empty() { vec![] } else { text.clone() };
@@ -384,6 +390,7 @@ pub fn run_c16(tier: &str) -> i32 {
                             let src = build_source(&refs, crlf, true);
                             let r = b.run(&src, Mode::Build, true, true);
                             rep.tv(1);
+                            rep.tr(1);
                             rep.add("b_write_round_trips", 1);
                             if any_dir {
                                 rep.add("b_round_trips_of_texts_containing_directive_lines", 1);
@@ -433,6 +440,8 @@ pub fn run_c16(tier: &str) -> i32 {
             };
             let r = b.run(&src, Mode::Build, true, true);
             rep.tv(1);
+            rep.tr(1);
+            rep.st(1);
             rep.add("c_sources_with_ordered_text_check", 1);
             if r.v != V::Ok {
                 return; // verdict agreement is C01's business
